@@ -60,13 +60,15 @@ pub enum Case {
     EncodeHuge { server: bool, pre: u8, pend_before: u8 },
     /// limits configured on generated client/server (plumbing)
     PlumbedServer { limit: usize, delta: i64, encode_side: bool },
-    PlumbedClient { limit: usize, delta: i64, encode_side: bool },
+    PlumbedClient { limit: usize, delta: i64, encode_side: bool, #[serde(default)] via_clone: bool, #[serde(default)] other_limit: Option<usize>, #[serde(default)] stream: bool },
 }
 
 const LIMITS: [usize; 6] = [0, 1, 5, 100, 4096, 65536];
+/// limits wider than the 32-bit length prefix: every declarable length is within them
+const WIDE_LIMITS: [usize; 4] = [1 << 32, (1 << 32) + 100, (1 << 33) + 5, usize::MAX];
 
 pub fn strategy() -> BoxedStrategy<Case> {
-    let limit = prop_oneof![8 => proptest::sample::select(&LIMITS[..]).prop_map(Some), 1 => Just(None)];
+    let limit = prop_oneof![8 => proptest::sample::select(&LIMITS[..]).prop_map(Some), 1 => Just(None), 1 => proptest::sample::select(&WIDE_LIMITS[..]).prop_map(Some)];
     let declared = prop_oneof![
         3 => Just(Declared::Rel(-1)),
         4 => Just(Declared::Rel(0)),
@@ -107,7 +109,7 @@ pub fn strategy() -> BoxedStrategy<Case> {
         if server {
             Case::PlumbedServer { limit, delta, encode_side }
         } else {
-            Case::PlumbedClient { limit, delta, encode_side }
+            Case::PlumbedClient { limit, delta, encode_side, via_clone: limit % 2 == 0 || delta == 1, other_limit: if delta == 0 { Some(limit * 8 + 3) } else { None }, stream: encode_side && delta != 0 }
         }
     });
     prop_oneof![10 => dec, 2 => bomb, 10 => enc, 3 => pl].boxed()
@@ -130,12 +132,14 @@ fn payload_of(len: usize, seed: u32) -> Vec<u8> {
 fn run_decode(response: bool, limit: Option<usize>, pre: &[u16], declared: &Declared, with_payload: bool, sizes: &[u16], pend: &[u8], o: &mut Outcome) -> Result<(), Failure> {
     let l = limit.unwrap_or(DEFAULT_LIMIT);
     let d: u64 = match declared {
-        Declared::Rel(x) => (l as i64 + x).max(0) as u64,
-        Declared::Twice => 2 * l as u64 + 2,
+        Declared::Rel(x) => (l as i128 + *x as i128).clamp(0, u32::MAX as i128) as u64,
+        Declared::Twice => (l as u64).saturating_mul(2).saturating_add(2),
         Declared::Abs(a) => *a as u64,
     }
     .min(u32::MAX as u64);
-    let d = d as usize;
+    // under a limit wider than the length prefix everything declarable is acceptable; keep the probe
+    // small there so that "accepted" does not mean reserving gigabytes in every shard
+    let d = if l > u32::MAX as usize { (d as usize).min(70_000) } else { d as usize };
     let over = d > l;
     let payload_follows = (with_payload || d == 0) && d <= (8 << 20);
     let mut bytes = vec![];
@@ -167,7 +171,7 @@ fn run_decode(response: bool, limit: Option<usize>, pre: &[u16], declared: &Decl
     o.label_if(d >= (64 << 20), "huge_declared");
     o.label_if(limit.is_none(), "default_limit");
     o.label_if(!pre.is_empty(), "earlier_messages");
-    o.label_if(d == l || d == l + 1, "at_boundary");
+    o.label_if(d == l || Some(d) == l.checked_add(1), "at_boundary");
     o.nontrivial = (over && !pre.is_empty()) || !payload_follows;
 
     alloc::arm();
@@ -285,6 +289,9 @@ fn run_encode(server: bool, limit: usize, bs: usize, yt: usize, pre: &[u16], ove
 /// every message before the failing one is delivered, in order, in DATA frames before the status;
 /// nothing from the failing position onwards; nothing after the trailers.
 fn judge_encode_failure(out: &EncOut, server: bool, expect: &[Vec<u8>], enc: Option<Enc>, code: Code, tag: &str) -> Result<(), Failure> {
+    if let Some(v) = out.contract_violation() {
+        bail!("C06/body-contract", "{tag}: {v}");
+    }
     let mut data = vec![];
     let mut status_at: Option<usize> = None;
     for (i, ev) in out.events.iter().enumerate() {
@@ -419,7 +426,7 @@ fn run_plumbed_server(limit: usize, delta: i64, encode_side: bool, o: &mut Outco
     Ok(())
 }
 
-fn run_plumbed_client(limit: usize, delta: i64, encode_side: bool, o: &mut Outcome) -> Result<(), Failure> {
+fn run_plumbed_client(limit: usize, delta: i64, encode_side: bool, via_clone: bool, other_limit: Option<usize>, stream: bool, o: &mut Outcome) -> Result<(), Failure> {
     o.label("plumbed_generated_client");
     o.nontrivial = true;
     let len = (limit as i64 + delta).max(0) as usize;
@@ -434,8 +441,22 @@ fn run_plumbed_client(limit: usize, delta: i64, encode_side: bool, o: &mut Outco
     let log = ch.log.clone();
     let mut client = vt::raw_client::RawClient::new(ch);
     client = if encode_side { client.max_encoding_message_size(limit) } else { client.max_decoding_message_size(limit) };
+    // the limit of the *other* direction is set to a different value: the two must not be confused
+    if let Some(ol) = other_limit {
+        client = if encode_side { client.max_decoding_message_size(ol) } else { client.max_encoding_message_size(ol) };
+    }
+    o.label_if(via_clone, "plumbed_client_clone");
+    let mut client = if via_clone { client.clone() } else { client };
     let req_payload = if encode_side { payload_of(len, 4) } else { b"q".to_vec() };
-    let r = crate::infra::driver::block_on_budget(512, async move { client.unary(tonic::Request::new(req_payload)).await });
+    o.label_if(stream, "plumbed_client_streaming_request");
+    let r = crate::infra::driver::block_on_budget(512, async move {
+        if stream {
+            // iterator-backed request stream: a small message, then the probe as the LAST item
+            client.client_stream(tokio_stream::iter(vec![b"s".to_vec(), req_payload])).await
+        } else {
+            client.unary(tonic::Request::new(req_payload)).await
+        }
+    });
     let r = match r {
         Ok(r) => r,
         Err(_) => bail!("C06/plumbed-client-stuck", "client call did not complete"),
@@ -448,7 +469,7 @@ fn run_plumbed_client(limit: usize, delta: i64, encode_side: bool, o: &mut Outco
         if encode_side {
             let l = log.lock().unwrap();
             let sent: usize = l.iter().map(|r| wire::parse_frames(&r.body()).0.len()).sum();
-            ensure!(sent == 0, "C06/oversize-message-sent", "oversized request message was put on the wire");
+            ensure!(sent <= stream as usize, "C06/oversize-message-sent", "oversized request message was put on the wire ({sent} frames)");
         }
     } else {
         match r {
@@ -472,7 +493,7 @@ pub fn run(c: &Case, o: &mut Outcome) -> Result<(), Failure> {
         }
         Case::EncodeHuge { server, pre, pend_before } => run_encode_huge(*server, *pre, *pend_before, o),
         Case::PlumbedServer { limit, delta, encode_side } => run_plumbed_server(*limit, *delta, *encode_side, o),
-        Case::PlumbedClient { limit, delta, encode_side } => run_plumbed_client(*limit, *delta, *encode_side, o),
+        Case::PlumbedClient { limit, delta, encode_side, via_clone, other_limit, stream } => run_plumbed_client(*limit, *delta, *encode_side, *via_clone, *other_limit, *stream, o),
     }
 }
 
@@ -518,7 +539,12 @@ impl Prop for C06 {
             for delta in [-1i64, 0, 1] {
                 for encode_side in [true, false] {
                     v.push(Case::PlumbedServer { limit, delta, encode_side });
-                    v.push(Case::PlumbedClient { limit, delta, encode_side });
+                    for via_clone in [false, true] {
+                        v.push(Case::PlumbedClient { limit, delta, encode_side, via_clone, other_limit: Some(limit * 8 + 3), stream: false });
+                        if encode_side {
+                            v.push(Case::PlumbedClient { limit, delta, encode_side, via_clone, other_limit: None, stream: true });
+                        }
+                    }
                 }
             }
         }
